@@ -42,7 +42,7 @@ def _qt(g, name, shape, dtype, r, qmode=None):
 
 def fam_hostile(seed):
     r = rng_for("hostile", seed)
-    kind = int(r.integers(0, 15))
+    kind = int(r.integers(0, 17))
     g = G(r, "int8")
     sub = "?"
     if kind == 0:  # unary builtin on random rank / dtype
@@ -291,6 +291,73 @@ def fam_hostile(seed):
                 g.net.add_o(BO.CONV_2D, ["in", "w", "b"], ["o"], "Conv2DOptions",
                             dict(padding=PAD_SAME, stride_w=1, stride_h=1, dilation_w_factor=1, dilation_h_factor=1, fused_activation_function=0), 3)
         g.net.inputs.append("in")
+        outs = ["o"]
+    elif kind == 14:  # operators without their builtin-options table (every field then has its schema default)
+        sub = "no-options"
+        h, w, c = int(r.choice([1, 4, 6])), int(r.choice([1, 4])), int(r.choice([4, 8]))
+        x = g.input([1, h, w, c])
+        X = g.T(x)
+        t = int(r.integers(0, 8))
+        if t in (0, 1):
+            oc = c if t == 1 else 8
+            wshape = (1, 1, 1, c) if t == 1 else (oc, 1, 1, c)
+            g.const("w", wshape, "int8", g.rweights(wshape), [0.01], [0])
+            g.const("b", (oc,), "int32", r.integers(-100, 100, (oc,)), [float(np.float32(X.scale[0] * 0.01))], [0])
+            g.act("o", (1, h, w, oc))
+            g.net.add_o(BO.DEPTHWISE_CONV_2D if t == 1 else BO.CONV_2D, [x, "w", "b"], ["o"], None, None, 3)
+        elif t == 2:
+            g.act("o", (1, h, w, c), X.scale[0], X.zp[0])
+            g.net.add_o(int(r.choice([BO.MAX_POOL_2D, BO.AVERAGE_POOL_2D])), [x], ["o"], None, None, 2)
+        elif t == 3:
+            g.act("o", (1, h, w, c))
+            g.net.add_o(int(r.choice([BO.ADD, BO.SUB, BO.MUL])), [x, x], ["o"], None, None, 2)
+        elif t == 4:
+            g.net.add_t("o", [1, h * w * c], "int8", [1 / 256.0], [-128])
+            g.const("shape", (2,), "int32", [1, h * w * c])
+            g.net.add_o(BO.RESHAPE, [x, "shape"], ["o"], None, None, 1)
+        elif t == 5:
+            g.act("o", (1, h, w, 2 * c), X.scale[0], X.zp[0])
+            g.net.add_o(BO.CONCATENATION, [x, x], ["o"], None, None, 2)
+        elif t == 6:
+            g.net.add_t("o", [1, h, w, c], "int8", [1 / 256.0], [-128])
+            g.net.add_o(BO.SOFTMAX, [x], ["o"], None, None, 2)
+        else:
+            g.const("w", (5, c), "int8", g.rweights((5, c)), [0.01], [0])
+            g.net.add_t("x2", [h * w, c], "int8", X.scale, X.zp)
+            g.const("shape", (2,), "int32", [h * w, c])
+            g.net.add_o(BO.RESHAPE, [x, "shape"], ["x2"], "ReshapeOptions", dict(new_shape=[h * w, c]), 1)
+            g.act("o", (h * w, 5))
+            g.net.add_o(BO.FULLY_CONNECTED, ["x2", "w", None], ["o"], None, None, 4)
+        outs = ["o"]
+    elif kind == 15:  # optional operands omitted (index -1), on operators that stay on the CPU as well as on accelerated ones
+        sub = "omitted-optional-input"
+        h, w, c = int(r.choice([1, 4])), int(r.choice([1, 4])), int(r.choice([4, 8]))
+        t = int(r.integers(0, 4))
+        if t == 0:  # float fully connected without bias (CPU)
+            g.net.add_t("in", [2, c], "float32")
+            g.const("w", (3, c), "float32", r.random((3, c)))
+            g.net.add_t("o", [2, 3], "float32")
+            g.net.add_o(BO.FULLY_CONNECTED, ["in", "w", None], ["o"], "FullyConnectedOptions", dict(fused_activation_function=0), 1)
+            g.net.inputs.append("in")
+        elif t == 1:  # quantised convolution without bias
+            x = g.input([1, h, w, c])
+            X = g.T(x)
+            g.const("w", (8, 1, 1, c), "int8", g.rweights((8, 1, 1, c)), [0.01], [0])
+            g.act("o", (1, h, w, 8))
+            g.net.add_o(BO.CONV_2D, [x, "w", None], ["o"], "Conv2DOptions",
+                        dict(padding=PAD_SAME, stride_w=1, stride_h=1, dilation_w_factor=1, dilation_h_factor=1, fused_activation_function=0), 3)
+        elif t == 2:  # convolution the accelerator cannot take (stride 4) without bias -> CPU operator with an omitted operand
+            x = g.input([1, 8, 8, c])
+            g.const("w", (8, 1, 1, c), "int8", g.rweights((8, 1, 1, c)), [0.01], [0])
+            g.act("o", (1, 2, 2, 8))
+            g.net.add_o(BO.CONV_2D, [x, "w", None], ["o"], "Conv2DOptions",
+                        dict(padding=PAD_VALID, stride_w=4, stride_h=4, dilation_w_factor=1, dilation_h_factor=1, fused_activation_function=0), 3)
+        else:  # transpose convolution without bias
+            x = g.input([1, h, w, c])
+            g.const("w", (8, 2, 2, c), "int8", g.rweights((8, 2, 2, c)), [0.01], [0])
+            g.const("oshape", (4,), "int32", [1, 2 * h, 2 * w, 8])
+            g.act("o", (1, 2 * h, 2 * w, 8))
+            g.net.add_o(BO.TRANSPOSE_CONV, ["oshape", "w", x, None] if r.integers(0, 2) else ["oshape", "w", x], ["o"], "TransposeConvOptions", dict(padding=PAD_SAME, stride_w=2, stride_h=2), 3)
         outs = ["o"]
     else:  # custom operator + unsupported + supported sandwich
         sub = "custom-sandwich"
